@@ -1,7 +1,7 @@
 """C18 -- constant hoisting preserves value and hoists only constants.
 
 Every expression with <= N operators over {sum (2/3 operands), product (2/3 operands), power,
-calls with 1-2 arguments} and atoms {a, b, y, 2} is given to the real collapse_constants with
+calls with 1-2 arguments} and atoms {a, b, y, 2} (and, one operator less, {a, y, 0, 1, 2}) is given to the real collapse_constants with
 EVERY subset of its variables declared free; the hoisted assignments are substituted back and
 compared with the original by ring normal form (violation only with a concrete valuation).
 """
@@ -17,7 +17,7 @@ ID = "C18"
 LEVEL = "exploration"
 TECHNIQUE = ("bounded exhaustive enumeration of expressions (<= N operators) x all free-variable subsets; substitute-back "
              "oracle by polynomial normal form with witness valuations; callback accounting")
-RULE = ("expressions are all trees with <= N operators (3-operand sums/products over atoms only), generated once each "
+RULE = ("expressions are all trees with <= N operators (3-operand sums/products: all atoms, or two atoms and one non-atomic operand), generated once each "
         "(dedup by structure); each is crossed with every subset of its variables; non-trivial = cases in which at least "
         "one subexpression was hoisted; distinct_outcomes = distinct (rewritten expression, hoisted assignments) texts")
 ASSUMPTIONS = ["pymbolic.substitute is trusted for substituting the hoisted assignments back"]
@@ -41,7 +41,7 @@ def level1(atoms):
     return out
 
 
-def combine(big, small, both_small=None):
+def combine(big, small, nary=True):
     for x in big:
         yield P.Call(V("f"), (x,))
         yield P.Power(x, 2)
@@ -52,15 +52,30 @@ def combine(big, small, both_small=None):
         yield P.Call(V("g"), (x, y))
 
 
+def nary_extras(big, small, pairs=2):
+    """n-ary nodes with one non-atomic operand (what flattened user input looks like): the operand in every position"""
+    a, b = small[0], small[1]
+    for x in big:
+        for p, q in ((a, b), (a, small[-1]))[:pairs]:
+            for kids in ((p, q, x), (p, x, q), (x, p, q)):
+                yield P.Sum(kids)
+                yield P.Product(kids)
+
+
 _LV = {}
+
+
+NARY_UPTO = {"quick": 2, "thorough": 3}      # operators below an n-ary node with a non-atomic operand
+_TIER = ["quick"]
 
 
 def levels(n, atoms_key="full"):
     """lv[k] = list of expressions with exactly k operators"""
-    key = (n, atoms_key)
+    key = (n, atoms_key, _TIER[0])
     if key in _LV:
         return _LV[key]
-    atoms = ATOMS if atoms_key == "full" else [V("a"), V("b"), V("y")]
+    atoms = {"full": ATOMS, "noconst": [V("a"), V("b"), V("y")],
+             "consts": [V("a"), V("y"), 0, 1, 2]}[atoms_key]
     lv = {0: list(atoms), 1: level1(atoms)}
     for k in range(2, n + 1):
         seen = set()
@@ -145,11 +160,21 @@ def check(expr, free):
 
 
 def cases(tier):
+    _TIER[0] = tier
     n = 3 if tier == "quick" else 4
     lv = levels(n if tier == "quick" else 3)
     for k in range(0, 4):
         for e in lv[k]:
             yield e
+    for k in range(1, NARY_UPTO[tier] + 1):
+        for e in nary_extras(lv[k], lv[0], 2 if (k == 1 or tier == "thorough") else 1):
+            yield e
+    seen = {repr(e) for k in range(0, 3) for e in lv[k]}
+    lvc = levels(2 if tier == "quick" else 3, "consts")
+    for k in sorted(lvc):
+        for e in lvc[k]:
+            if repr(e) not in seen:
+                yield e
     if tier == "thorough":
         lv4 = levels(4, "noconst")
         for e in lv4[4]:
@@ -157,8 +182,12 @@ def cases(tier):
 
 
 def bounds(tier):
+    _TIER[0] = tier
     lv = levels(3)
+    lvc = levels(2 if tier == "quick" else 3, "consts")
     b = {"operators<=3": sum(len(lv[k]) for k in range(4)), "atoms": "a, b, y, 2",
+         "operators<=%d with the literals 0 and 1" % (2 if tier == "quick" else 3): sum(len(v) for v in lvc.values()),
+         "n-ary": "3-operand sums/products over atoms, and (operand with <= %d operators) with one non-atomic operand in each position" % NARY_UPTO[tier],
          "free_sets": "every subset of the expression's variables (function symbols excluded)"}
     if tier == "thorough":
         b["operators=4"] = "all over atoms a, b, y (no constant)"
